@@ -51,6 +51,14 @@ def cases(draw, tier):
     g = world["gdim"]
     sh = draw(st.sampled_from([(), (), (g,), (g, g)]))
     e = G.expr(sh, (), draw(st.integers(1, 4)))
+    if draw(st.integers(0, 9)) == 0:
+        # determinants / inverses / cofactors of 4x4 (and 3x3 in 2D) matrices: the generic n x n expansions
+        n4 = draw(st.sampled_from([4, 4, 3]))
+        A = ["list", [["list", [G.expr((), (), 1) for _ in range(n4)]] for _ in range(n4)]]
+        A = ["add", ["mul", ["lit", 3], ["eye", n4]], ["mul", ["lit", 0.3], A]]
+        k4 = draw(st.sampled_from(["det", "inv", "inv"]))
+        e = ["det", A] if k4 == "det" else ["index", ["inv", A], [draw(st.integers(0, n4 - 1)), draw(st.integers(0, n4 - 1))]]
+        sh = ()
     kinds = {n: draw(st.sampled_from(["callable", "callable", "callable", "value"])) for n, f in world["fields"].items()
              if f["kind"] == "coef"}
     return {"world": world, "expr": e, "vars": G.vars, "mapkind": kinds, "env_seed": draw(st.integers(0, 10**6))}
